@@ -234,6 +234,24 @@ def count : RNode → Int
   | .alt a b => count a + count b + 2
   | .grp a _ mn mx => countRep (count a + 2) mn mx
 
+/-- `rnode_count` as the C code computes it since the size limit: every return value is clamped to `NCODE`, so
+    that the products of nested repetition counts stay within `int` -/
+def sat (n : Int) : Int := if n < (Gen.NCODE : Int) then n else (Gen.NCODE : Int)
+
+def countRepSat (n : Int) (mn mx : Int) : Int :=
+  if mn == 0 && mx == 0 then 0
+  else if mn == 1 && mx == 1 then sat n
+  else
+    let n1 := if mx < 0 then (mn + 1) * n + 1 else (mn + mx) * n + mx - mn
+    sat (if mn == 0 then n1 + 1 else n1)
+
+def countSat : RNode → Int
+  | .nul => 0
+  | .atom _ mn mx => countRepSat 1 mn mx
+  | .cat a b => countRepSat (countSat a + countSat b) 1 1
+  | .alt a b => countRepSat (countSat a + countSat b + 2) 1 1
+  | .grp a _ mn mx => countRepSat (countSat a + 2) mn mx
+
 inductive Inst where
   | atom (a : Atom)
   | fork (a1 a2 : Nat)
@@ -319,9 +337,9 @@ def regcomp (pat : Bytes) (flg : Nat) : Option (Option Prog) :=
   | some none => some none
   | some (some t) =>
     -- nested repetitions multiply: a program beyond NCODE instructions is refused (the count saturates there in C)
-    if count t + 3 > (Gen.NCODE : Int) then some none else
+    if countSat t + 3 > (Gen.NCODE : Int) then some none else
     let t' := (grpnum t 1).1
-    some (some { code := [Inst.mark 0] ++ emit t' 1 ++ [Inst.mark 1, Inst.mtch], alloc := count t + 3, flg := flg })
+    some (some { code := [Inst.mark 0] ++ emit t' 1 ++ [Inst.mark 1, Inst.mtch], alloc := countSat t + 3, flg := flg })
 
 /-- the program fits the memory reserved for it -/
 def Prog.fits (p : Prog) : Bool := (p.code.length : Int) ≤ p.alloc
